@@ -1122,6 +1122,71 @@ class sx_set(metaclass=_ShimMeta):
         return SymSet(first).intersection(*sets)
 
 
+class LazyBag(object):
+    """set(iterable) whose only later use is `bag - other` tested for emptiness (the idiom
+    `if set(s) - set(ALLOWED)`): membership becomes one formula instead of a fork per element.
+    Any other use falls back to a SymSet."""
+
+    def __init__(self, items=()):
+        self._items = list(items)
+
+    def _set(self):
+        return SymSet(self._items)
+
+    def __sub__(self, other):
+        return _LazyDiff(self._items, list(other))
+
+    def __rsub__(self, other):
+        return _LazyDiff(list(other), self._items)
+
+    def __iter__(self):
+        return iter(self._set())
+
+    def __len__(self):
+        return _len(self._set())
+
+    def __bool__(self):
+        return _len(self._items) > 0
+
+    def __contains__(self, x):
+        return bool(s_or(*[_sym_eq(x, y) for y in self._items])) if self._items else False
+
+    def __getattr__(self, name):
+        return getattr(self._set(), name)
+
+
+class _LazyDiff(object):
+    def __init__(self, items, others):
+        self._items, self._others = items, others
+
+    def _formula(self):
+        outs = []
+        for x in self._items:
+            member = s_or(*[_sym_eq(x, y) for y in self._others]) if self._others else False
+            outs.append(s_not(member))
+        return s_or(*outs) if outs else False
+
+    def __bool__(self):
+        return bool(self._formula())
+
+    def _set(self):
+        return SymSet(self._items).difference(self._others)
+
+    def __iter__(self):
+        return iter(self._set())
+
+    def __len__(self):
+        return _len(self._set())
+
+
+class sx_lazyset(metaclass=_ShimMeta):
+    _real = set
+    _sym = (SymSet, LazyBag, _LazyDiff)
+
+    def __new__(cls, *args):
+        return LazyBag(*args)
+
+
 class SymDict(object):
     """dict replacement with symbolic key equality (insertion ordered association list)."""
 
